@@ -167,6 +167,9 @@ func genTable(t *rapid.T, sp TableSpec, label string) *Table {
 		tb.Cols = append(tb.Cols, c)
 	}
 	nr := rapid.IntRange(sp.MinRows, sp.MaxRows).Draw(t, label+".nrows")
+	if sp.MaxRows >= 8 {
+		nr = genRowCount(t, sp.MinRows, sp.MaxRows, label+".nrows")
+	}
 	for r := 0; r < nr; r++ {
 		row := map[string]any{}
 		for ci := range tb.Cols {
@@ -603,4 +606,13 @@ func genGoTypesForPool(t *rapid.T, pool []any, label string) string {
 		}
 	}
 	return ""
+}
+
+// genRowCount draws a row count in lo..hi, and now and then one well beyond (13..40): algorithms that
+// switch strategy with the input size (sorting, hashing, chunking) are exercised on both sides of the switch.
+func genRowCount(t *rapid.T, lo, hi int, label string) int {
+	if rapid.IntRange(0, 9).Draw(t, label+".many") == 0 {
+		return rapid.IntRange(13, 40).Draw(t, label+".manyrows")
+	}
+	return rapid.IntRange(lo, hi).Draw(t, label)
 }
